@@ -70,11 +70,13 @@ def jPath (j : Json) : Except String Path := do
 def ofTok : Tok → Json
   | .bad => ofStr "bad"
   | .good => ofStr "good"
+  | .stale => ofStr "stale"
 
 def jTok (j : Json) : Except String Tok := do
   match (← jStr j) with
   | "bad" => pure .bad
   | "good" => pure .good
+  | "stale" => pure .stale
   | s => throw s!"unknown token {s}"
 
 def ofEv : Ev → Json
@@ -83,9 +85,15 @@ def ofEv : Ev → Json
   | .commit p t => Json.arr #[ofStr "commit", ofPath p, ofTok t]
   | .remove p => Json.arr #[ofStr "remove", ofPath p]
 
+/-- optional boolean field -/
+def jBoolD (j : Json) (k : String) (d : Bool) : Except String Bool :=
+  match j.getObjVal? k with
+  | .ok v => jBool v
+  | .error _ => pure d
+
 def jVariant (j : Json) : Except String Variant := do
   pure ⟨← jBool (← arg j "flushBeforeLock"), ← jBool (← arg j "dropProcessed"), ← jBool (← arg j "locksFirst"),
-        ← jBool (← arg j "countUnaligned")⟩
+        ← jBool (← arg j "countUnaligned"), ← jBoolD j "cleanBeforeParams" true, ← jBoolD j "dropAtDumpPrefix" true⟩
 
 def jRG (j : Json) : Except String RG := do
   match (← jStr j) with
@@ -97,12 +105,19 @@ def jRG (j : Json) : Except String RG := do
 def jCfg (j : Json) : Except String Cfg := do
   pure { chrs := ← jList jNat (← arg j "chrs"), mchrs := ← jList jNat (← arg j "mchrs"),
          bchrs := ← jList jNat (← arg j "bchrs"), genedb := ← jBool (← arg j "genedb"), rg := ← jRG (← arg j "rg"),
-         keepTmp := ← jBool (← arg j "keepTmp"), unmapped := ← jBool (← arg j "unmapped") }
+         keepTmp := ← jBool (← arg j "keepTmp"), unmapped := ← jBool (← arg j "unmapped"),
+         fromSaves := ← jBoolD j "fromSaves" false }
 
 /-- a file system given as a list of [path, token] -/
 def jFS (j : Json) : Except String FS := do
   let l ← jList (jPair jPath jTok) j
   pure (l.foldl (fun fs (p, t) => fs.set p (some t)) FS.empty)
+
+/-- the initial file system of the first run (optional field `fs0`, default: empty folder) -/
+def jFS0 (j : Json) : Except String FS :=
+  match j.getObjVal? "fs0" with
+  | .ok v => jFS v
+  | .error _ => pure FS.empty
 
 def ofFS (cfg : Cfg) (fs : FS) : Json :=
   Json.arr ((allPaths cfg).filterMap (fun p => (fs p).map (fun t => Json.arr #[ofPath p, ofTok t]))).toArray
@@ -124,29 +139,32 @@ def ops : List (String × Handler) := [
       let resume ← jBool (← arg j "resume")
       let fs ← jFS (← arg j "fs")
       pure (ofRes cfg (run v cfg ord resume fs))),
-  -- file system after the first k events of the uninterrupted run
+  -- file system after the first k events of the uninterrupted run started on fs0
   ("crash", fun j => do
       let v ← jVariant (← arg j "variant")
       let cfg ← jCfg (← arg j "cfg")
       let ord ← jList jPath (← arg j "ord")
       let k ← jNat (← arg j "k")
-      pure (ofFS cfg (crashFS v cfg ord k))),
-  -- kill after k events, resume with directory order ord2: verdict + the resumed run
+      let fs0 ← jFS0 j
+      pure (ofFS cfg (crashFSFrom v cfg ord fs0 k))),
+  -- start on fs0, kill after k events, resume with directory order ord2: verdict + the resumed run
   ("verdict", fun j => do
       let v ← jVariant (← arg j "variant")
       let cfg ← jCfg (← arg j "cfg")
       let ord ← jList jPath (← arg j "ord")
       let ord2 ← jList jPath (← arg j "ord2")
       let k ← jNat (← arg j "k")
-      let r := run v cfg ord2 true (crashFS v cfg ord k)
-      pure (Json.mkObj [("verdict", ofVerdict (verdict v cfg ord ord2 k)), ("resumed", ofRes cfg r)])),
+      let fs0 ← jFS0 j
+      let r := run v cfg ord2 true (crashFSFrom v cfg ord fs0 k)
+      pure (Json.mkObj [("verdict", ofVerdict (verdictFrom v cfg ord ord2 fs0 k)), ("resumed", ofRes cfg r)])),
   -- verdicts for every crash index 0..len
   ("verdicts", fun j => do
       let v ← jVariant (← arg j "variant")
       let cfg ← jCfg (← arg j "cfg")
       let ord ← jList jPath (← arg j "ord")
-      let n := (cleanEvents v cfg ord).length
-      pure (ofList ofVerdict ((List.range (n + 1)).map (fun k => verdict v cfg ord ord k))))
+      let fs0 ← jFS0 j
+      let n := (cleanEventsFrom v cfg ord fs0).length
+      pure (ofList ofVerdict ((List.range (n + 1)).map (fun k => verdictFrom v cfg ord ord fs0 k))))
 ]
 
 end IsoVerif.Driver.C07
